@@ -143,12 +143,90 @@ def xmlpart_clone_oracle(tier, seed):
     return bad, n
 
 
+def twin_run_oracle(tier, seed):
+    """indistinguishable when taken includes behaviour afterwards: bring a document (and every part class) into a non-default
+    state, clone, then run the SAME subsequent program on the original and on the clone, each on its own, and compare everything
+    observable (every member of the saved packages, XML by C14N, nothing masked)"""
+    import random, zipfile
+    odfdo = common.use_repo()
+    from odfdo import Document, Paragraph
+    S = [s for s in pkglib.samples(common.REPO) if not s.endswith("big.ods")]
+    starts = ["text", "spreadsheet"] + S[:: (9 if tier == "quick" else 2)]
+
+    def c14n(b):
+        try:
+            return etree.tostring(etree.fromstring(b), method="c14n")
+        except etree.XMLSyntaxError:
+            return b
+    PRE = {
+        "generator-set": lambda d: setattr(d.meta, "generator", "Custom Generator 1.0"),
+        "generator-set+edits": lambda d: (setattr(d.meta, "generator", "G2"), setattr(d.meta, "title", "t"), d.body.append(Paragraph("x")), d.styles.root),
+        "all-parts-fetched": lambda d: [d.get_part(n).root for n in ("content", "styles", "meta", "settings", "manifest")],
+        "meta-edited": lambda d: setattr(d.meta, "subject", "subject set"),
+        "nothing": lambda d: None,
+    }
+    POST = {
+        "save": lambda d: None,
+        "edit-then-save": lambda d: (setattr(d.meta, "description", "after clone"), d.body.append(Paragraph("after"))),
+        "stamp-then-save": lambda d: d.meta.set_generator_default(),
+        "save-twice": lambda d: d.save(io.BytesIO()),
+    }
+    bad, n = [], 0
+    for st in starts:
+        for pn, pre in PRE.items():
+            for qn, post in POST.items():
+                try:
+                    d = pkglib.limited(Document, st)
+                    pkglib.limited(pre, d)
+                    c = pkglib.limited(lambda: d.clone)
+                    outs = []
+                    for doc in (d, c):
+                        pkglib.limited(post, doc)
+                        b = io.BytesIO(); pkglib.limited(doc.save, b)
+                        outs.append(dict((nm, c14n(data)) for nm, _, data in pkglib.read_zip(b.getvalue())))
+                    n += 1
+                    if outs[0] != outs[1]:
+                        diff = sorted(k for k in set(outs[0]) | set(outs[1]) if outs[0].get(k) != outs[1].get(k))
+                        bad.append(("twin-run/%s/%s" % (pn.split("+")[0], diff[0]), dict(start=st, pre=pn, post=qn, differing_members=diff[:4])))
+                except pkglib.Timeout:
+                    continue
+                except Exception as e:
+                    bad.append(("twin-run/raises-%s" % type(e).__name__, dict(start=st, pre=pn, post=qn, error=repr(e)[:200])))
+    # XmlPart.clone, every part class: what the class stores beside the tree is carried over, and the same call gives the same result
+    for st in starts[:4]:
+        for name in ("content", "styles", "meta", "settings", "manifest"):
+            try:
+                d = pkglib.limited(Document, st)
+                part = d.get_part(name); _ = part.root
+                if name == "meta":
+                    part.generator = "Custom Generator 1.0"
+                cl = pkglib.limited(lambda: part.clone)
+                n += 1
+                base = ("container", "_XmlPart__tree", "_XmlPart__root")
+                for key, value in part.__dict__.items():
+                    if key in base:
+                        continue
+                    if key not in cl.__dict__ or cl.__dict__[key] != value:
+                        bad.append(("xmlpart-clone/state-not-carried-over/%s" % type(part).__name__, dict(start=st, part=name, attribute=key)))
+                if name == "meta":
+                    part.set_generator_default(); cl.set_generator_default()
+                if c14n(part.serialize()) != c14n(cl.serialize()):
+                    bad.append(("xmlpart-clone/behaves-differently/%s" % type(part).__name__, dict(start=st, part=name)))
+            except pkglib.Timeout:
+                continue
+            except Exception as e:
+                bad.append(("xmlpart-clone/raises-%s" % type(e).__name__, dict(start=st, part=name, error=repr(e)[:200])))
+    return bad, n
+
+
 def run_half(tier, seed, replay=None, finish=False):
     def post_hook(done, recmap, seed_, known, proofs):
         rj = json.load(open(replay)) if replay else None
         if rj and "ops" in rj:
             return [], [], {}, []
         bad, n = xmlpart_clone_oracle(tier, seed_)
+        bad2, n2 = twin_run_oracle(tier, seed_)
+        bad, n = bad + bad2, n + n2
         if rj and "xmlpart_case" in rj:
             bad = [b for b in bad if b[0] == rj["key"]][:1]
         viol, ks, seen = [], [], set()
